@@ -167,24 +167,36 @@ def norm_pred(p):
 def rule_cfg_inventory(repo, tier, R):
     d = tmpl(repo)
     table = load_cfg_table()
-    got = collections.Counter()
-    sites = collections.defaultdict(list)
-    for c in d["cfgs"]:
-        k = (c["rel"], c["kind"], norm_pred(c["pred"]), "<template>" in c["fn"])
-        got[k] += 1
-        sites[k].append(c)
-    want = collections.Counter()
     roles = {}
     for e in table["sites"]:
-        k = (e["file"], e["kind"], e["pred"], bool(e.get("template", False)))
-        want[k] += e["count"]
-        roles[k] = e
-    for k in sorted(set(got) | set(want), key=str):
-        g, w = got.get(k, 0), want.get(k, 0)
-        key = "%s|%s(%s)%s" % (k[0], k[1], k[2], "|template" if k[3] else "")
-        where = "%s:%s" % (sites[k][0]["file"], sites[k][0]["line"]) if sites.get(k) else None
-        R.check(g == w, "C19-R1", key, "%d reviewed site(s): %s" % (w, roles.get(k, {}).get("role", "")),
-                "cfg inventory differs from the reviewed table: %d site(s) `%s(%s)` in %s, reviewed %d. A new or moved gate must be reviewed (tables/cfg_sites.json) before the feature-confinement claim holds." % (g, k[1], k[2], k[0], w), where)
+        roles[(e["pred"], bool(e.get("template", False)))] = e.get("role", "")
+    # C19-R1: every conditional-compilation site uses one of the predicates the crate documents, and each site is then
+    # judged by the confinement rule of its predicate class (C19-R2/R3), wherever it sits. Sites are not counted and not
+    # keyed by file or function: moving a gate, or sharing it through a helper, is not a finding; a gate on anything else
+    # (a target, an undeclared feature, `test`) or an emitted gate that is not the user's own predicate is.
+    KNOWN = {'feature = "events"', 'any ( doc , feature = "events" )', 'feature = "32_components"', 'feature = "wrapping_version"', 'not ( feature = "wrapping_version" )',
+             "debug_assertions", "not ( debug_assertions )", "doc", "not ( doc )", "docsrs , feature ( doc_auto_cfg )"}
+    KNOWN_T = {"# predicate", "not ( # predicate )"}
+    n_sites = 0
+    for c in d["cfgs"]:
+        pred = norm_pred(c["pred"])
+        in_t = "<template>" in c["fn"]
+        n_sites += 1
+        ok = (pred in KNOWN_T) if in_t else (pred in KNOWN)
+        key = "%s|%s(%s)%s" % (c["rel"], c["kind"], pred, "|template" if in_t else "")
+        R.check(ok, "C19-R1", key, "documented predicate: %s" % roles.get((pred, in_t), pred),
+                "%s gates code on `%s`%s: not one of the documented features / debug_assertions / doc%s. Behaviour would vary with something the crate does not document." % (
+                    c["rel"], pred, " inside an emitted template" if in_t else "", " (emitted code may only repeat the user's own predicate)" if in_t else ""), "%s:%s" % (c["file"], c["line"]))
+    R.check(n_sites >= 30, "C19-R1", "cfg-sites|count", "%d conditional-compilation sites judged" % n_sites, "only %d cfg sites found (the scan lost its anchors)" % n_sites, None)
+    # pairing of the wrapping_version alternatives: in every function both polarities occur equally often, so exactly one is compiled
+    pol = collections.defaultdict(lambda: [0, 0])
+    for c in d["cfgs"]:
+        pred = norm_pred(c["pred"])
+        if "wrapping_version" in pred and "<template>" not in c["fn"]:
+            pol[(c["rel"], c["fn"])][1 if pred.startswith("not") else 0] += 1
+    for (rel, fn_), (a_, b_) in sorted(pol.items()):
+        R.check(a_ == b_, "C19-R2", "%s|wrapping_version|pairing@%s" % (rel, fn_ or "item"), "wrapping / checked alternatives are paired (%d each)" % a_,
+                "%s: %d site(s) gated on wrapping_version but %d on its negation in %s: with one setting of the feature a piece of code is missing or doubled" % (rel, a_, b_, fn_ or "item scope"), None)
     # C19-R2 confinement of gated regions (lexical part; the effect side is judged on MIR by C17-R1 / C08-R2 / G-DBG)
     for c in d["cfgs"]:
         if "<template>" in c["fn"]:
@@ -198,8 +210,9 @@ def rule_cfg_inventory(repo, tier, R):
             bad = re.search(r"\bself \. (len|capacity|version|free_head|slots|entities|d\d+)\b(?! \( \))\s*(=|\+=|-=)", gated)
             R.check(ok and not bad, "C19-R2", key, "events gate confined to the event logs", "code gated on `events` touches more than the event logs: %s" % gated[:120], where)
         elif "wrapping_version" in pred:
-            ok = c["fn"].endswith("next") and gated.startswith("version :")
-            R.check(ok, "C19-R2", key, "wrapping_version gate = alternative initialiser of `version` in next()", "wrapping_version gates `%s` in %s" % (gated[:80], c["fn"]), where)
+            succ = re.search(r"\b(wrapping_add|checked_add) \( 1 \)", gated) is not None
+            bad = re.search(r"\bself \. (len|capacity|free_head|slots|entities|created|destroyed|d\d+)\b|\b(push|swap_remove|write|release|assign|grow) \(", gated)
+            R.check(succ and not bad, "C19-R2", key, "wrapping_version gate = one of the two ways to compute the successor generation (x+1 wrapping / checked)", "wrapping_version gates `%s` in %s: more (or other) than the successor computation" % (gated[:100], c["fn"]), where)
         elif pred == 'feature = "32_components"':
             m = re.match(r"seq ! \( N in 17 \.\s*\. = 32 \{ (.*) \} \)$", gated.strip())
             ok = m is not None
